@@ -1,0 +1,67 @@
+// Copyright 2024 The Outline Authors
+//
+// Licensed under the Apache License, Version 2.0 (the "License");
+// you may not use this file except in compliance with the License.
+// You may obtain a copy of the License at
+//
+//      https://www.apache.org/licenses/LICENSE-2.0
+//
+// Unless required by applicable law or agreed to in writing, software
+// distributed under the License is distributed on an "AS IS" BASIS,
+// WITHOUT WARRANTIES OR CONDITIONS OF ANY KIND, either express or implied.
+// See the License for the specific language governing permissions and
+// limitations under the License.
+
+//go:build verif
+
+package service
+
+// Exported views of unexported parts, for the verification harness only (build tag `verif`).
+// Nothing here is compiled into the server.
+
+import (
+	"log/slog"
+	"net"
+	"time"
+
+	"github.com/Jigsaw-Code/outline-sdk/transport/shadowsocks"
+)
+
+// VerifConstants returns the unexported constants the models are parameterised by.
+func VerifConstants() map[string]int64 {
+	return map[string]int64{
+		"bytesForKeyFinding":  bytesForKeyFinding,
+		"serverUDPBufferSize": serverUDPBufferSize,
+		"maxAddrLen":          int64(maxAddrLen),
+		"serverSaltMarkLen":   serverSaltMarkLen,
+		"minSaltEntropy":      minSaltEntropy,
+		"tcpReadTimeout":      int64(tcpReadTimeout),
+		"defaultNatTimeout":   int64(defaultNatTimeout),
+		"MaxCapacity":         MaxCapacity,
+	}
+}
+
+// VerifPreHash is preHash.
+func VerifPreHash(id string, salt []byte) uint32 { return preHash(id, salt) }
+
+// VerifNatConn wraps a natconn built around an injected PacketConn.
+type VerifNatConn struct{ c *natconn }
+
+// VerifNewNatConn builds a natconn the way natmap.set does.
+func VerifNewNatConn(pc net.PacketConn, cryptoKey *shadowsocks.EncryptionKey, m UDPConnMetrics, timeout time.Duration) *VerifNatConn {
+	return &VerifNatConn{c: &natconn{PacketConn: pc, cryptoKey: cryptoKey, metrics: m, defaultTimeout: timeout}}
+}
+
+func (v *VerifNatConn) WriteTo(buf []byte, dst net.Addr) (int, error) { return v.c.WriteTo(buf, dst) }
+func (v *VerifNatConn) ReadFrom(buf []byte) (int, net.Addr, error)    { return v.c.ReadFrom(buf) }
+
+// ReadDeadlineField returns the natconn's own record of its read deadline.
+func (v *VerifNatConn) ReadDeadlineField() time.Time { return v.c.readDeadline }
+
+// VerifTimedCopy runs timedCopy on an injected association.
+func VerifTimedCopy(clientAddr net.Addr, clientConn net.PacketConn, target *VerifNatConn, l *slog.Logger) {
+	if l == nil {
+		l = noopLogger()
+	}
+	timedCopy(clientAddr, clientConn, target.c, l)
+}
